@@ -388,7 +388,21 @@ func genC04(t *rapid.T) *Case {
 	// followed by hostile cancel / yield / error).
 	var pre []Op
 	for i := 0; i < uni(t, 3, "ntemplates"); i++ {
-		switch uni(t, 3, "template") {
+		switch uni(t, 4, "template") {
+		case 3:
+			// a testament whose publish options are hostile, then the owner's session ends:
+			// the publication is made by the router's own meta session
+			s := uni(t, nreal, "tts")
+			for j := 0; j < 1+uni(t, 2, "ntest"); j++ {
+				op := Op{K: "meta", S: s, URI: "wamp.session.add_testament", N: 777,
+					Args: []V{VStr(genTopic(t)), VList(genArgs(t, valOpts{})...), V{T: "dict"}},
+					Kw:   []KV{{"publish_options", V{T: "dict", K: genHostileOpts(t, native(s), 3)}}}}
+				if pct(t, 40, "tscope") {
+					op.Kw = append(op.Kw, KV{"scope", VStr(pick(t, []string{"detached", "destroyed", "x"}, "tsc"))})
+				}
+				pre = append(pre, op)
+			}
+			pre = append(pre, Op{K: pick(t, []string{"drop", "goodbye"}, "tend"), S: s})
 		case 0:
 			u := genTopic(t)
 			pol := pick(t, []string{"foo", "roundrobin", "first", "random", "", "single", "foo"}, "tpol")
